@@ -211,6 +211,21 @@ def register_wholesale(R):
         cond = z3.And(S.delete_eff(c.eng, c.pre, o), Emptied(s), S.stronger(c.pre, o, c.pre, s, z3.BoolVal(True)))
         return [('C02+C04.a-deleting-newer-node-that-is-not-outranked-takes-the-place-of-an-older-node-emptied-by-the-pruning', z3.Implies(cond, c.rt == Takes(o, s)))]
 
+    TAG = 'C03.flags-and-metadata-of-the-merged-container-are-combined-in-favour-of-the-newer-node-unless-it-is-outranked'
+
+    def gate_combine(sc, kw):
+        # _replace_self(a, b): a absorbs b's flags / metadata (b wins what both define); _replace_other(a, b): a's win.  At the end of the
+        # composed merge the NEWER node's flags and metadata win unless the older node is strictly stronger - latest among equals (C03)
+        recv, arg = kw['args'][0], kw['args'][1]
+        h = kw['heap']
+        s, o = sc.ref('self'), sc.ref('other')
+        newer_not_outranked = S.stronger(h, o, h, s, z3.BoolVal(True))
+        which = kw['which']
+        if which == 'self':
+            return z3.And(recv.t == sc['self'], arg.t == sc['other'], newer_not_outranked)
+        return z3.Or(z3.And(recv.t == sc['self'], arg.t == sc['other'], z3.Not(newer_not_outranked)),
+                     z3.And(recv.t == sc['other'], arg.t == sc['self'], newer_not_outranked))
+
     R.add(Contract(C + 'ComposedNode.ayns.on_merge_impl', [P.node('self', 'ConfigDict', exact=True), P.path('path'), P.node('other', ['ConfigDict', 'ConfigList'])],
                    name='wholesale-replacement',
                    requires=lambda c: [('valid', z3.And(S.valid_flags(c.pre, c.ref('self')), S.valid_flags(c.pre, c.ref('other')), c.ref('self') != c.ref('other')))],
@@ -218,7 +233,9 @@ def register_wholesale(R):
                    ensures=[('wholesale', ens)], result=P.val('result', 'any'),
                    loops={0: Loop(lambda c, L: [], mod_locals=['key', 'value', 'child', 'merge', 'possibly_new_child'], mod_fields=NODEF)},
                    props=('C02', 'C04'),
-                   opts={'use': USE, 'verify_only': True, 'no_search': True, 'assume_children_are_objects': True, 'no_frame': True, 'skip_kinds': ('pre', 'safety')},
+                   opts={'use': USE, 'verify_only': True, 'no_search': True, 'assume_children_are_objects': True, 'no_frame': True, 'skip_kinds': ('pre', 'safety'),
+                         'watch': {N + 'ConfigNode._replace_self': TAG + ':absorb', N + 'ConfigNode._replace_other': TAG + ':keep'},
+                         'gates': {TAG + ':absorb': lambda sc, kw: gate_combine(sc, dict(kw, which='self')), TAG + ':keep': lambda sc, kw: gate_combine(sc, dict(kw, which='other'))}},
                    note='older node a mapping, newer node a mapping or a list; callee preconditions and run-time type safety are not obligations of this instance'))
 
 
